@@ -81,6 +81,31 @@ fn spki_dec_case(sink: &mut Sink, model: &mut Model, der: &[u8], class: &str) {
     sink.op(&op, &ans, der.len() > 10);
 }
 
+/// the SubjectPublicKeyInfo of a made-up RSA key with a modulus of `nbytes` bytes (e = 65537)
+pub fn made_up_rsa_spki(r: &mut Rng, model: &mut Model, nbytes: usize) -> Option<Vec<u8>> {
+    let mut modulus = r.bytes(nbytes);
+    modulus[0] |= 0x80;
+    let last = modulus.len() - 1;
+    modulus[last] |= 1;
+    let der_int = |mag: &[u8]| -> Vec<u8> {
+        let mut c = vec![];
+        if mag[0] & 0x80 != 0 {
+            c.push(0);
+        }
+        c.extend_from_slice(mag);
+        let mut out = vec![0x02];
+        if c.len() < 0x80 { out.push(c.len() as u8) } else if c.len() < 0x100 { out.extend([0x81, c.len() as u8]) } else { out.extend([0x82, (c.len() >> 8) as u8, c.len() as u8]) }
+        out.extend(c);
+        out
+    };
+    let mut body = der_int(&modulus);
+    body.extend(der_int(&[1, 0, 1]));
+    let mut pkcs1 = vec![0x30];
+    if body.len() < 0x80 { pkcs1.push(body.len() as u8) } else if body.len() < 0x100 { pkcs1.extend([0x81, body.len() as u8]) } else { pkcs1.extend([0x82, (body.len() >> 8) as u8, body.len() as u8]) }
+    pkcs1.extend(body);
+    unhex(&model.ask(&format!("spki_enc rsa {}", hex(&pkcs1))))
+}
+
 pub fn run(cfg: &Cfg) {
     let mut sink = Sink::new(&cfg.out);
     let mut r = Rng::new(cfg.seed);
@@ -250,27 +275,7 @@ pub fn run(cfg: &Cfg) {
     //      48 bytes a line of PEM holds, every residue modulo 3 of the base64 padding), made up for the
     //      purpose - they need not be usable for signing to be keys with a description, an id and a wire form
     for nbytes in (256usize..=304).chain([129, 384, 432, 512, 513]) {
-        let mut modulus = r.bytes(nbytes);
-        modulus[0] |= 0x80;
-        let last = modulus.len() - 1;
-        modulus[last] |= 1;
-        let der_int = |mag: &[u8]| -> Vec<u8> {
-            let mut c = vec![];
-            if mag[0] & 0x80 != 0 {
-                c.push(0);
-            }
-            c.extend_from_slice(mag);
-            let mut out = vec![0x02];
-            if c.len() < 0x80 { out.push(c.len() as u8) } else if c.len() < 0x100 { out.extend([0x81, c.len() as u8]) } else { out.extend([0x82, (c.len() >> 8) as u8, c.len() as u8]) }
-            out.extend(c);
-            out
-        };
-        let mut body = der_int(&modulus);
-        body.extend(der_int(&[1, 0, 1]));
-        let mut pkcs1 = vec![0x30];
-        if body.len() < 0x80 { pkcs1.push(body.len() as u8) } else if body.len() < 0x100 { pkcs1.extend([0x81, body.len() as u8]) } else { pkcs1.extend([0x82, (body.len() >> 8) as u8, body.len() as u8]) }
-        pkcs1.extend(body);
-        let spki = match unhex(&model.ask(&format!("spki_enc rsa {}", hex(&pkcs1)))) {
+        let spki = match made_up_rsa_spki(&mut r, &mut model, nbytes) {
             Some(b) => b,
             None => continue,
         };
@@ -541,6 +546,9 @@ pub fn run(cfg: &Cfg) {
             sink.stat(&format!("caller-table/{}/forged-{}/honest-{}", if i % 2 == 0 { "under-another-keys-id" } else { "under-an-id-of-no-key" }, match f1 { Ok(true) => "ACCEPTED", Ok(false) => "refused", Err(()) => "panic" }, match h { Ok(true) => "accepted", Ok(false) => "REFUSED", Err(()) => "panic" }));
         }
     }
+    // ---- attribution inside whole verifications: evidence filed under, labelled with or signed by another key
+    //      than the one it is counted for - at the root, in a step, in a delegated layout - never verifies
+    crate::e2e_props::run_into(&mut sink, cfg, "C12", if cfg.thorough { 1200 } else { 100 });
     let _ = json!(0);
     sink.finish(&cfg.out, serde_json::json!({}));
 }
